@@ -236,6 +236,21 @@ func (e *env) gate(x int) {
 	<-g
 }
 
+// number of gated user-function calls that have started and were not released yet: workers inside the user function
+func (e *env) running() int {
+	e.mu.Lock()
+	defer e.mu.Unlock()
+	n := 0
+	for _, g := range e.gates {
+		select {
+		case <-g:
+		default:
+			n++
+		}
+	}
+	return n
+}
+
 func (e *env) fails(x int) bool { return e.c.mode != "pure" && e.c.fail[x] }
 
 func (e *env) release(x int) string {
@@ -515,6 +530,10 @@ func runScript(t *testing.T, line string) (res string) {
 					r = "nope"
 				} else {
 					r = outs[k].try()
+					if r == "closed" && e.c.gated && e.running() > 0 {
+						// an output is closed although a worker is still inside the user function (its call was never released)
+						r = "closed-while-call-running"
+					}
 				}
 			case 'x':
 				cancel()
